@@ -148,6 +148,11 @@ void run(const Spec &s) {
                 });
                 vs_block_until(pred_parked, (void *)(long)(i + 1));
             }
+            // late arrivals: started while the writer still holds, they issue their request whenever the schedule lets them - while the batch is still queued,
+            // while its members are waking up one after the other, or after they are all inside; they are not part of the rendezvous
+            for (size_t i = 0; i < s.late.size(); i++)
+                th.emplace_back([&res, &s, i] { for (char op : s.late[i]) section(*res, op, s.guards, [] { vs_point(1); }); });
+            if (!s.late.empty()) vs_point(2);
         });
     } else if (s.holder) {
         section(*res, s.holder, s.guards, [&] {
@@ -186,7 +191,8 @@ void add(VSuite &suite, Spec s, int bound, const std::string &flavour, bool unlo
     if (!s.late.empty()) nm += "+late-" + join(s.late);
     p.name = nm + (s.guards ? "-guards" : "") + (s.spurious ? "+spurious" : "");
     p.spurious = s.spurious;
-    p.describe = s.rendezvous ? "main holds the write lock while " + std::to_string(s.rendezvous) + " readers queue up one after the other; after it unlocks the readers wait for each other inside the read section"
+    p.describe = s.rendezvous ? "main holds the write lock while " + std::to_string(s.rendezvous) + " readers queue up one after the other; after it unlocks the readers wait for each other inside the read section" +
+                                (s.late.empty() ? std::string() : "; late threads [" + join(s.late) + "] are started while main still holds and issue their requests at any time")
                  : std::string(s.holder ? std::string("main holds ") + s.holder + " while the threads " + (s.ordered_arrival ? "queue up in order" : "start") + "; " : "") +
                    (s.late.empty() ? std::string() : "late threads [" + join(s.late) + "] start while the holder still holds and arrive at any time; ") +
                    "threads run the scripts [" + join(s.scripts) + "] (R/W = one read/write critical section with a scheduling point inside)" + (s.guards ? " using ReadLock/WriteLock guards" : " using raw lock*/unlock* calls") +
@@ -262,6 +268,11 @@ bool provider(const std::string &prop, const std::string &tier, const std::strin
         for (int k = 2; k <= (thorough ? 4 : 3); k++) { Spec s = base; s.rendezvous = k; add(suite, s, thorough ? 3 : 2, flavour); s.guards = true; if (k == 2) add(suite, s, 2, flavour); }
         for (auto &v : multisets(3, {"R", "W"})) if (v != std::vector<std::string>{"R", "R", "R"}) { Spec s = base; s.scripts = v; add(suite, s, 2, flavour); }
         { Spec s = base; s.scripts = {"R", "R", "W", "R"}; s.holder = 'W'; s.ordered_arrival = true; add(suite, s, 2, flavour); }
+        // a reader that arrives while the members of an admitted batch are still waking up must neither be held back nor disturb them
+        { Spec s = base; s.rendezvous = 2; s.late = {"R"}; add(suite, s, 2, flavour); }
+        { Spec s = base; s.rendezvous = 2; s.late = {"R", "R"}; add(suite, s, thorough ? 2 : 1, flavour); }
+        { Spec s = base; s.rendezvous = 3; s.late = {"R"}; add(suite, s, thorough ? 2 : 1, flavour); }
+        if (thorough) { Spec s = base; s.rendezvous = 2; s.late = {"RR"}; add(suite, s, 2, flavour); }
         // spurious wake-ups: a reader of a queued batch (or the writer in front of it) may wake without a notification at any time
         { Spec s = base; s.rendezvous = 2; s.spurious = 1; add(suite, s, 2, flavour); }
         if (thorough) { Spec s = base; s.rendezvous = 3; s.spurious = 1; add(suite, s, 2, flavour); }
